@@ -21,6 +21,7 @@ import (
 	"os"
 	"path/filepath"
 	"runtime"
+	"strings"
 	"sync"
 	"testing"
 	"time"
@@ -32,7 +33,7 @@ import (
 type lEdit struct {
 	Kind    string   `json:"kind"`
 	Content string   `json:"content"`
-	Style   string   `json:"style"` // write | recreate | delete | atomic
+	Style   string   `json:"style"`            // write | recreate | delete | atomic
 	Others  []string `json:"others,omitempty"` // other paths listed in the change set (direct mode), before the main file
 	After   []string `json:"after,omitempty"`  // ... and after it
 	Reject  bool     `json:"reject,omitempty"` // the server refuses this reload (Reload returns an error)
@@ -293,6 +294,17 @@ func runVerifReloadJob(job *lJob, tmp string) *lOut {
 			}
 			os.WriteFile(file, []byte(e.Content), 0o644)
 			return ChangeTypeCreated
+		case "same-stat":
+			content := e.Content
+			fi, err := os.Stat(file)
+			if err == nil && !fi.IsDir() && int64(len(content))+3 <= fi.Size() {
+				content += "\n#" + strings.Repeat("=", int(fi.Size())-len(content)-3) + "\n"
+			}
+			os.WriteFile(file, []byte(content), 0o644)
+			if err == nil && !fi.IsDir() && int64(len(content)) == fi.Size() {
+				os.Chtimes(file, fi.ModTime(), fi.ModTime())
+			}
+			return ChangeTypeModified
 		case "atomic":
 			tf := filepath.Join(dir, "main.glyph.tmp~")
 			os.WriteFile(tf, []byte(e.Content), 0o644)
